@@ -332,6 +332,16 @@ class Gen:
                 n = self.next_n()
                 self.meta["atoms"].append("undef")
                 lines += ["# header comment only", "def early_%d(): return undefined_%d" % (n, n), "", ""]
+            elif hv == 3:
+                self.meta["features"].append("header_comment_blank_then_def_with_diag")
+                n = self.next_n()
+                self.meta["atoms"].append("undef")
+                lines += ["# licence line one", "# licence line two", "", "def early_%d(): return undefined_%d" % (n, n), "", ""]
+            elif hv == 4:
+                self.meta["features"].append("leading_blank_then_def_with_diag")
+                n = self.next_n()
+                self.meta["atoms"].append("undef")
+                lines += ["", "def early_%d(): return undefined_%d" % (n, n), "", ""]
         lines += PRELUDE.split("\n")
         for k in range(r.randint(1, 4)):
             lines += self.function(k) + ["", ""]
